@@ -417,6 +417,12 @@ class IrGenerator:
                     assert (
                         inp.result() is _boolean.true
                     ), f"internal error: expected boolean literal, got {inp.result()}"
+
+                    if new_state is ctx.first_state():
+                        # add a Nop to mark the first state as used
+                        # so a following await/while does not detect
+                        # the state as empty and skip its clock cycle
+                        new_state.code().append(ir.Nop())
                 else:
                     if_body = ir.CodeBlock([], parent=new_state.open_block())
                     new_state.append(
